@@ -5,6 +5,7 @@ range keys of filtering, user keys) x every representation admissible for the
 key's documented type x every setting route.  Oracle: an independent
 reference normaliser per documented type.
 """
+import itertools
 import os
 import warnings
 
@@ -239,6 +240,94 @@ def _reject_case(args):
     return cnt, out
 
 
+def _registry_history_case(args):
+    """Pattern keys of [online_filter] exist exactly while their feature is
+    registered: every sequence (length <= 5) of registering / deregistering
+    a temporary feature and using its keys, through three routes."""
+    import dclab
+    from dclab import definitions as dfn
+    from dclab.rtdc_dataset import feat_temp
+    from dclab.rtdc_dataset.config import Configuration
+    feat = "vf_c11_tmp"
+    keys = [(f"{feat} min", 1.5, 1.5), (f"{feat} soft limit", "true", True),
+            (f"{feat},deform polygon points", [[1, 2], [3, 4], [5, 1]],
+             np.array([[1., 2], [3, 4], [5, 1]]))]
+    out = []
+    cnt = 0
+    alphabet = ["reg", "dereg", "use0", "use1", "use2"]
+
+    def dereg():
+        if dfn.scalar_feature_exists(feat):
+            feat_temp.deregister_temporary_feature(feat)
+    for L in range(1, 6):
+        for seq in itertools.product(alphabet, repeat=L):
+            if not any(o.startswith("use") for o in seq[1:]):
+                continue            # nothing observed after a change
+            dereg()
+            registered = False
+            ok = True
+            for o in seq:           # skip sequences with impossible steps
+                if o == "reg":
+                    ok &= not registered
+                    registered = True
+                elif o == "dereg":
+                    ok &= registered
+                    registered = False
+            if not ok:
+                continue
+            cnt += 1
+            registered = False
+            case = {"kind": "registry", "seq": list(seq)}
+            try:
+                for pos, o in enumerate(seq):
+                    if o == "reg":
+                        dclab.register_temporary_feature(feat)
+                        registered = True
+                        continue
+                    if o == "dereg":
+                        feat_temp.deregister_temporary_feature(feat)
+                        registered = False
+                        continue
+                    key, val, norm = keys[int(o[3])]
+                    for route in ("exists", "item", "constructor"):
+                        with warnings.catch_warnings(record=True) as w:
+                            warnings.simplefilter("always")
+                            if route == "exists":
+                                got = dfn.config_key_exists("online_filter",
+                                                            key)
+                                good = got == registered
+                            else:
+                                if route == "item":
+                                    cfg = Configuration()
+                                    cfg["online_filter"][key] = val
+                                else:
+                                    cfg = Configuration(
+                                        cfg={"online_filter": {key: val}})
+                                stored = key in cfg["online_filter"]
+                                good = stored == registered and (
+                                    not stored or same(
+                                        cfg["online_filter"][key], norm))
+                                got = cfg["online_filter"].get(key)
+                        if not good:
+                            out.append(violation(
+                                CFG, "pattern-key-ignores-registry", case,
+                                f"step {pos} ({o}, route {route}): feature "
+                                f"{'registered' if registered else 'not registered'}"
+                                f", key {key!r} -> {got!r}",
+                                {"route": route,
+                                 "registered": registered}))
+                            raise StopIteration
+            except StopIteration:
+                pass
+            except BaseException as e:
+                out.append(violation(CFG, "exception", case,
+                                     f"{type(e).__name__}: {e}",
+                                     {"route": "registry",
+                                      "exc": type(e).__name__}))
+    dereg()
+    return cnt, out
+
+
 def _file_case(args):
     """Routes through storage: configuration file, HDF5 attributes, export,
     compress."""
@@ -412,6 +501,7 @@ def run(ctx):
     nch = 16
     res = par.pmap(_memory_case, [(c, nch) for c in range(nch)])
     res += par.pmap(_reject_case, [()])
+    res += par.pmap(_registry_history_case, [()])
     res += par.pmap(_file_case, [(c, nch, ctx.scratch) for c in range(nch)])
     res += par.pmap(_handwritten_case, [(c, nch, ctx.scratch)
                                         for c in range(nch)])
@@ -431,7 +521,9 @@ def run(ctx):
                    "strings); routes: item assignment (+upper-case key), "
                    "section update, Configuration.update, constructor, "
                    "idempotence, config file, store_metadata->HDF5->"
-                   "parse_config, export, compress",
+                   "parse_config, export, compress; every sequence (<= 5) of "
+                   "registering / deregistering a temporary feature and "
+                   "using its online_filter pattern keys",
            "samples": [{"sec": "setup", "key": "channel width",
                         "rep": "str:'2.5'", "route": "item"},
                        {"sec": "qpi", "key": "scale to filter",
@@ -447,6 +539,9 @@ def run(ctx):
 
 
 def replay(case, ctx):
+    if case["kind"] == "registry":
+        _, vs = _registry_history_case(())
+        return [v for v in vs if v["case"] == case]
     keys = all_keys()
     idx = [i for i, (s, k, _) in enumerate(keys)
            if s == case["sec"] and k == case["key"]]
@@ -454,6 +549,9 @@ def replay(case, ctx):
         vs = []
         for c in range(16):
             vs += _handwritten_case((c, 16, ctx.scratch))[1]
+        return [v for v in vs if v["case"] == case]
+    if case["kind"] == "registry":
+        _, vs = _registry_history_case(())
         return [v for v in vs if v["case"] == case]
     if case["kind"] == "reject":
         _, vs = _reject_case(())
